@@ -4,6 +4,7 @@ import os
 from .. import gen
 
 ALGOS = ("naive", "priority", "priority-pool", "overbook", "vtemplate")
+ALGOS_PLUS = ALGOS + ("vrandom", "vrandom")      # + a seeded random admissible policy (not a shipped scheduler)
 REG_DIR = "tests/regression"
 REG_NAMES = ["naive_defaults_10m", "naive_solo_ops_10m", "priority_defaults_10m", "priority_suspensions_10m"]
 
@@ -27,6 +28,9 @@ def random_sim_case(rng, kind="sim", small=True, algos=ALGOS, allow_pp_single=Fa
         "allow_memory_overcommit": True if algo == "overbook" else (rng.random() < 0.2),
         "random_seed": rng.randint(0, 10 ** 6),
     }
+    if algo == "vrandom":
+        params["vrandom_seed"] = rng.randint(0, 10 ** 9)
+        params["vrandom_p_suspend"] = rng.choice([0.0, 0.3, 0.8])
     wtype = workload or rng.choice(["script", "script", "script", "generator"])
     if wtype == "generator":
         iq = rng.choice(gen.PROB_TRIPLES)
